@@ -1,18 +1,30 @@
 """C12 — the evaluation log records exactly what was observed, where it was observed."""
 from harness import comp_logger as L
+from translate import logger as TL
 from vlib import core
 
-PROPS = ["Props/C12.v", "Props/C12extent.v"]
-THEOREMS = ["C12_refines", "C12_other_rows_untouched", "C12_growth_invisible", "C12_func_count_exact",
+PROPS = ["Props/C12.v", "Props/C12extent.v", "Props/C12src.v"]
+TRANSLATORS = ["logger"]
+THEOREMS = ["C12_record_is_source", "C12_merge_formula_is_source", "C12_growth_is_source", "C12_step_is_source", "C12_call_add_are_source",
+            "C12_refines", "C12_other_rows_untouched", "C12_growth_invisible", "C12_func_count_exact",
             "C12_merged_is_weighted_mean", "C12_call_order_preserved", "C12_no_double_match", "C12_extent_covers_every_record"]
 LEVEL = "proof"
 RULE = ("op sequences over FunctionLogger generated from one PRNG (new points / exact repeats / points sharing k<D "
         "coordinates / record flags / add / finalize / 13 fault kinds; D 1-4; cache sizes 0-8,500; levels 0,1,2; "
         "with and without a transform); a case is non-trivial when it contains a merge, a growth or a no-record hit; "
-        "distinct = distinct (cfg, ops)")
+        "distinct = distinct (cfg, ops); source: FunctionLogger (_record with _expand_arrays inlined, __call__, add, __init__, finalize) is re-translated "
+        "from function_logger.py on every run (translate/logger.py -> coq/gen/Src_logger.v), proved equal to Model/Logger.v's record / step and "
+        "Model/LoggerExtent.v's new_record for all states (Props/C12src.v), and the GENERATED programs are evaluated by Coq on every generated sequence "
+        "next to the hand-written model (incl. X_max_idx after every op), both against the real FunctionLogger; the ordered validity tests are evaluated "
+        "on every (noise mode, returned-value kind) pair")
 TRUSTED = [
     "Coq 8.16.1 kernel + vm_compute (case evaluation); no native_compute",
-    "hand-written model Model/Logger.v of function_logger.py, tied by per-op differential comparison (harness/comp_logger.py)",
+    "hand-written model Model/Logger.v of function_logger.py, tied by per-op differential comparison (harness/comp_logger.py); its record / step and "
+    "LoggerExtent.new_record are PROVED equal to the programs regenerated from the source (C12_record_is_source, C12_step_is_source, C12_growth_is_source)",
+    "translate/logger.py (fail-closed ast whitelist + symbolic execution of _record; writer census over the class and the package; unused rows read as NaN rows that "
+    "match no point; sqrt symbolic; the point preamble / exception handler / coercions of __call__ pinned as text) - validated on every run: the generated programs "
+    "are evaluated by Coq (vm_compute) on every sequence of the tie and compared with the real FunctionLogger",
+    "Model/LoggerSrc.v: the meaning of the program language (run_rprog, run_checks, step_gen)",
     "float->Q conversion by float.as_integer_ratio; merged Y and S^2 compared to the exact rational at 1e-9 relative (IEEE rounding of the weighted mean is not modelled)",
     "NumPy array semantics, Timer/fun_eval_time bookkeeping and Y_max are not modelled",
 ]
@@ -48,11 +60,41 @@ def tie(ctx, broken):
             k = o["op"] + ":" + o.get("out", "")
             dist[k] = dist.get(k, 0) + 1
     ctx.coverage["op_distribution"] = dist
-    coq = [L.coq_case(*c) for c in cases]
-    okc, bad, log = core.run_cases("C12", L.REQUIRES, L.CASE_TY, L.OK_FUN, coq, shard=150)
+    coq = [L.coq_case_src(*c) for c in cases]
+    cur, tex = TL.current()
+    sdiff = TL.diff(cur) if cur is not None else []
+    ctx.coverage["source_translation"] = dict(translatable=cur is not None, error=(str(tex)[:300] if tex else None),
+                                              differs_from_reference=[d["name"] for d in sdiff])
+    bad_src, src_log = None, ""
+    if TL.generated_ok() and cur is not None:
+        okc, bad, bad_src, log = L.run_cases_both("C12", coq, shard=150)
+        if not okc:
+            src_log = log
+            bad_src = None
+    else:
+        src_log = "no generated program: " + (str(tex) if tex else "coq/gen/Src_logger.v holds no definition")
+    if bad_src is None:
+        okc, bad, log = core.run_cases("C12", L.REQUIRES, L.CASE_TY, L.OK_FUN, [L.coq_case(*c) for c in cases], shard=150)
     ctx.coverage["traces_validated_against_impl"] = len(cases) - len(bad)
     good = ctx.oblige("correspondence:logger", "correspondence", okc and not bad,
                       f"{len(bad)} of {len(cases)} sequences differ; " + log[-500:])
+    # the translator is checked, not trusted: the GENERATED programs against the real FunctionLogger on the same sequences
+    if bad_src is not None:
+        ctx.coverage["source_program_validated_on"] = len(cases) - len(bad_src)
+        if not ctx.oblige("correspondence:logger_source", "correspondence", not bad_src,
+                          f"generated programs (coq/gen/Src_logger.v: step_gen src_record src_call_events src_add_events) vs FunctionLogger: {len(bad_src)} of {len(cases)} sequences differ"):
+            i = bad_src[0]
+            broken.append(("correspondence:logger_source",
+                           f"the program translated from the source and FunctionLogger differ on sequence {i}: cfg={cases[i][0]} ops={cases[i][1][:10]}"
+                           + ("  [the hand-written model agrees with FunctionLogger here: TRANSLATOR fault]" if i not in bad else "")))
+    else:
+        ctx.oblige("correspondence:logger_source", "correspondence", False, src_log[-400:])
+        if not any(nm == "translate:logger" for nm, _ in broken):
+            broken.append(("correspondence:logger_source", "the generated program could not be evaluated: " + src_log[-300:]))
+    if bad and bad_src is not None and bad[0] not in bad_src:
+        ctx.notes.append("the program regenerated from the current source AGREES with FunctionLogger where the hand-written model differs: the source has changed, "
+                         "Model/Logger.v no longer describes it (" + ", ".join(d["name"] for d in sdiff) + ")")
+    L.tie_checks(ctx, broken, "C12")
     # --- the extent model (Model/LoggerExtent.v, Props/C12extent.v): Xn, X_max_idx and the capacity after every op, up to the first finalize
     ext_cases, ext_idx = [], []
     for i, (cfg, ops, trace, oracle) in enumerate(cases):
@@ -96,6 +138,10 @@ def tie(ctx, broken):
 
 
 def classify(msg):
+    if "invalid value" in msg or "invalid SD" in msg:
+        return "invalid-accepted"
+    if "a valid evaluation" in msg:
+        return "valid-rejected"
     if "precision-weighted" in msg or "combined variance" in msg:
         return "merge-wrong-row"
     if "func_count" in msg:
@@ -103,18 +149,55 @@ def classify(msg):
     return "log-content"
 
 
+def aim(ctx):
+    cur, tex = TL.current()
+    regions = TL.regions_of_diff(cur, tex)
+    desc = [f"translation stopped: {tex}"] if tex is not None else [f"{d['name']} differs from the reference translation" for d in TL.diff(cur)]
+    return regions, desc
+
+
+def _report(ctx, cfg, ops, msg, note=""):
+    small = L.shrink(cfg, ops, lambda c, o: L.monitor(c, o, L.run_real(c, [dict(x) for x in o])[0]) is not None)
+    tr = L.run_real(cfg, [dict(x) for x in small])[0]
+    m2 = L.monitor(cfg, small, tr) or msg
+    ctx.violate(classify(m2), m2 + note, dict(kind="logger_sequence", cfg=cfg, ops=small))
+
+
 def search(ctx, broken):
+    """Something is broken and the tie produced no concrete failing input: sequences AIMED at the construct of the source that changed
+    (translate/logger.py knows which), then the general stream; verdicts are the declarative monitor's.  No hit: each broken obligation
+    once, non-concrete."""
+    regions, desc = aim(ctx)
+    aimed = L.gen_aimed(ctx.rng, regions, 2500) if regions else []
+    ctx.coverage["search"] = dict(source_change=[d[:200] for d in desc][:6], aimed_at=sorted(regions), aimed_sequences=len(aimed))
+    note = (f"  [search aimed at: {', '.join(sorted(regions))}]" if regions else "") + (f"  [source change: {desc[0][:200]}]" if desc else "")
+    for reg, cfg, ops in aimed:
+        ops = [dict(o) for o in ops]
+        try:
+            trace, _ = L.run_real(cfg, ops)
+            msg = L.monitor(cfg, ops, trace)
+        except Exception as ex:       # the harness itself could not evaluate this sequence: not a verdict
+            ctx.notes.append(f"aimed sequence not evaluated ({type(ex).__name__}: {ex}): cfg={cfg} ops={ops[:6]}")
+            continue
+        if msg:
+            _report(ctx, cfg, ops, msg, note)
+            return True
+    if "checks" in regions or "call" in regions or "add" in regions:
+        n0 = len(ctx.violations)
+        L.tie_checks(ctx, [], "C12s")
+        if len(ctx.violations) > n0:
+            return True
     for i in range(3000):
         cfg, ops = L.gen_sequence(ctx.rng, i)
         trace, _ = L.run_real(cfg, ops)
         msg = L.monitor(cfg, ops, trace)
         if msg:
-            small = L.shrink(cfg, ops, lambda c, o: L.monitor(c, o, L.run_real(c, [dict(x) for x in o])[0]) is not None)
-            tr = L.run_real(cfg, [dict(x) for x in small])[0]
-            m2 = L.monitor(cfg, small, tr) or msg
-            ctx.violate(classify(m2), m2, dict(kind="logger_sequence", cfg=cfg, ops=small))
+            _report(ctx, cfg, ops, msg, note)
             return True
-    return False
+    for name, what in broken:
+        ctx.violate("broken:" + name, what + (f"  [source change: {'; '.join(d[:160] for d in desc[:3])}]" if desc else ""),
+                    dict(broken_obligation=name, detail=what, source_change=desc[:6]), concrete=False)
+    return True
 
 
 def replay(ctx, rp):
